@@ -59,6 +59,8 @@ func C19Scenario() *Scenario {
 		etagAt := map[string]time.Duration{}
 		etagBad := map[string]bool{}     // the body sent with this ETag has an unknown field
 		lastEtagStep := map[string]int{} // parent -> kernel step of the last answer that carried an ETag
+		lastEtag := map[string]string{}  // parent -> the ETag that answer carried
+		etagReused := map[string]bool{}  // ETags that went out with more than one body
 		nextID := 0
 		allDone := func() bool {
 			mu.Lock()
@@ -145,7 +147,7 @@ func C19Scenario() *Scenario {
 				return []byte(fmt.Sprintf(`{"status":{"call":%d},"children":[]%s}`, id, extra))
 			}
 			hdr := map[string]string{}
-			behaviours := []string{"unknown-field-etag", "200", "200-etag", "304", "412", "429-num", "429-date", "429-none", "429-junk", "other", "unknown-field", "duplicate-field", "bad-json", "stall", "refused", "200-etag"}
+			behaviours := []string{"unknown-field-etag", "200", "200-etag", "304", "412", "429-num", "429-date", "429-none", "429-junk", "other", "unknown-field", "duplicate-field", "bad-json", "stall", "refused", "200-etag", "200-etag-reused"}
 			b := behaviours[w.T.Pick(len(behaviours), "behaviour")]
 			call.behaviour = b
 			call.expectKnown = true
@@ -163,6 +165,23 @@ func C19Scenario() *Scenario {
 				e := fmt.Sprintf("e%d", id)
 				etagBody[e] = int64(id)
 				etagAt[e] = w.Now()
+				lastEtagStep[call.parent] = w.step
+				lastEtag[call.parent] = e
+				hdr["ETag"] = e
+				accept(int64(id))
+				return HookAnswer{Code: 200, Header: hdr, Body: body("")}
+			case "200-etag-reused":
+				// a weak validator: the ETag last issued for this parent comes again, on a
+				// 200 with another body. A 200 is an answer: its own body is what counts.
+				e := lastEtag[call.parent]
+				if e == "" || etagBad[e] {
+					e = fmt.Sprintf("e%d", id)
+				} else {
+					etagReused[e] = true
+				}
+				etagBody[e] = int64(id)
+				etagAt[e] = w.Now()
+				lastEtag[call.parent] = e
 				lastEtagStep[call.parent] = w.step
 				hdr["ETag"] = e
 				accept(int64(id))
@@ -186,6 +205,9 @@ func C19Scenario() *Scenario {
 				if etag && call.sentINM != "" {
 					if c, ok := etagBody[call.sentINM]; ok && !(strict && etagBad[call.sentINM]) {
 						accept(c) // the body cached together with exactly the ETag that was sent
+						if etagReused[call.sentINM] {
+							call.expectKnown = false // several bodies have gone out under this ETag: which one the client holds depends on the interleaving
+						}
 						if w.Now()-etagAt[call.sentINM] > time.Duration(cacheTTL)*time.Second-time.Second {
 							call.expectKnown = false // the client's cache entry may legitimately have expired meanwhile
 						}
